@@ -7,7 +7,7 @@ hash-consed argument, so recomputing the same expression in a harness meets the 
 from fractions import Fraction
 import math
 
-BOOL_OPS = {'<', '<=', '>', '>=', '=', '!=', 'not', 'and', 'or', '=>', 'bvar', 'pred'}
+BOOL_OPS = {'fp.lt', 'fp.leq', 'fp.gt', 'fp.geq', 'fp.eq', 'fp.isNaN', 'fp.isInfinite', '<', '<=', '>', '>=', '=', '!=', 'not', 'and', 'or', '=>', 'bvar', 'pred'}
 
 
 class T:
@@ -223,10 +223,24 @@ def num_smt(x):
     return s if x >= 0 else '(- %s)' % s
 
 
+FPS = {'F64': (11, 53), 'F32': (8, 24)}
+
+
 def coerce(x, want):
     """SMT literal for a concrete x in a position of sort `want`."""
     if isinstance(x, bool):
         return 'true' if x else 'false'
+    if want in FPS:
+        eb, sb = FPS[want]
+        x = float(x)
+        if x != x:
+            return '(_ NaN %d %d)' % (eb, sb)
+        if x in (float('inf'), float('-inf')):
+            return '(_ %soo %d %d)' % ('+' if x > 0 else '-', eb, sb)
+        if x == 0:
+            import math as _m
+            return '(_ %szero %d %d)' % ('-' if _m.copysign(1.0, x) < 0 else '+', eb, sb)
+        return '((_ to_fp %d %d) RNE %s)' % (eb, sb, num_smt(Fraction(x)))
     if want == 'Int':
         if isinstance(x, Fraction):
             assert x.denominator == 1
@@ -259,14 +273,14 @@ class Printer:
         s = T.sort[i]
         if k[0] == 'var':
             nm = '|%s|' % k[1]
-            self.out.append('(declare-const %s %s)' % (nm, k[2]))
+            self.out.append('(declare-const %s %s)' % (nm, '(_ FloatingPoint %d %d)' % FPS[k[2]] if k[2] in FPS else k[2]))
             self.vars[k[1]] = (x, k[2])
             self.memo[i] = nm
             return nm
         if k[0] == 'app':
             # opaque application: printed as a constant (Ackermannised; congruence comes from axioms.py)
             nm = '|%s!%d|' % (k[1], i)
-            self.out.append('(declare-const %s %s)' % (nm, s))
+            self.out.append('(declare-const %s %s)' % (nm, '(_ FloatingPoint %d %d)' % FPS[s] if s in FPS else s))
             self.apps.append(x)
             self.memo[i] = nm
             return nm
@@ -287,6 +301,17 @@ class Printer:
             else:
                 op = 'distinct' if k[0] == '!=' else k[0]
                 body = '(%s %s %s)' % (op, self.p(k[1], w), self.p(k[2], w))
+        elif k[0].startswith('fp.'):
+            fs = None
+            for a in k[1:]:
+                if is_sym(a):
+                    fs = sort_of(a)
+            fs = fs or s
+            args = [self.p(a, fs) for a in k[1:]]
+            if k[0] in ('fp.add', 'fp.sub', 'fp.mul', 'fp.div'):
+                body = '(%s RNE %s)' % (k[0], ' '.join(args))
+            else:
+                body = '(%s %s)' % (k[0], ' '.join(args))
         elif k[0] in ('not', 'and', 'or', '=>'):
             body = '(%s %s)' % (k[0], ' '.join(self.p(a, 'Bool') for a in k[1:]))
         elif k[0] == 'neg':
@@ -317,7 +342,7 @@ class Printer:
         else:
             raise ValueError('cannot print %r' % (k,))
         nm = 'n%d' % i
-        self.out.append('(define-fun %s () %s %s)' % (nm, s, body))
+        self.out.append('(define-fun %s () %s %s)' % (nm, '(_ FloatingPoint %d %d)' % FPS[s] if s in FPS else s, body))
         self.memo[i] = nm
         return nm
 
